@@ -1,5 +1,6 @@
 import PlushModel
 import PlushProofs.Lib.EvalPaths
+import PlushProofs.Lib.EvalIndexTail
 /-!
   C11 — path access returns exactly what Go navigation would, or fails; never another element.
   Struct values and pointers ARE in the model's value universe (`Val.struct`, `Val.ptr`; build session 3): field
@@ -137,6 +138,29 @@ theorem C11_incomplete_navigation (ty : String) (fields : List (Bytes × Val)) (
     memberStep (.list e a) name = .err { kind := "no-field-or-method" } ∧
     memberStep (.map .string .any a) name = .err { kind := "no-field-or-method" } :=
   ⟨memberStep_missing ty fields name h, rfl, rfl, rfl, rfl, rfl, rfl⟩
+
+/-- INDEX-THEN-MEMBER HANGS OFF THE INDEXED ELEMENT (`evalIndexCallee`, the site of the wrong-element defect
+    repaired in session 1): for every state, every element and every name of the callee root, binding the element
+    in the fresh child scope and evaluating the tail `cv.name` there yields exactly `memberStep elem name` — the
+    member of THAT element, whatever the caller's scope or the copied variables hold under other names — and the
+    caller's scope is current again afterwards. (`indexTail` is literally the sequence `evalIndex` runs after the
+    bounds-checked access; a nil element is not bound, as in Go, and reads as an unknown identifier.) -/
+theorem C11_index_then_member_uses_the_element (f : Nat) (t : Token) (cv name : Bytes) (elem : Val) (s : ES)
+    (hne : elem.isNil = false) :
+    (indexTail f t cv name elem s).1 = memberStep elem name ∧
+      ((∀ x, memberStep elem name ≠ .fatal x) → (indexTail f t cv name elem s).2.cur = s.cur) :=
+  indexTail_uses_element f t cv name elem s hne
+
+/-- … and that sequence is what `evalIndex` does for `l[i].name` (after `assignCallee` put `cv` at the root of the
+    tail): index and left evaluated, bounds-checked access, nil for a missing map key WITHOUT evaluating the tail,
+    otherwise the tail on the element -/
+theorem C11_index_tail_is_evalIndex (f : Nat) (l i : Option Expr) (t : Token) (cv name : Bytes) :
+    evalIndex (f + 4) l i none (some (.ident { tok := t, base := some cv, segs := [name] })) = (do
+      let index ← evalExpr (f + 3) i
+      let left ← evalExpr (f + 3) l
+      let elem ← accessIndex left index false
+      if (← mapKeyMissing left index) then pure .nil else indexTail f t cv name elem) :=
+  evalIndex_tail_eq f l i t cv name
 
 /-- non-vacuity: `u.Boss.Name` on `u = &User{Name: "ann", Boss: &User{Name: "bo", Boss: nil}}` is "bo", and
     `u.Boss.Boss.Name` is nil (a member of a nil pointer field) -/
